@@ -30,7 +30,7 @@ Print Assumptions T04a_row_in_exactly_one_block.
 Theorem T04a_blocks_shape : forall n T, 0 < n -> 0 < T ->
   (Z.of_nat (length (blocks n T)) = n_threads n T /\ n_threads n T <= T) /\
   (forall b, In b (blocks n T) -> (0 < length b <= Z.to_nat (block_size n T))%nat).
-Proof. intros n T Hn HT. split; [exact (blocks_count n T Hn HT) | exact (blocks_nonempty n T Hn HT)]. Qed.
+Proof. exact blocks_shape. Qed.
 Print Assumptions T04a_blocks_shape.
 
 (* more threads than rows: one row per thread, n threads *)
@@ -123,10 +123,7 @@ Proof. intros. rewrite engine_total_eq by reflexivity. reflexivity. Qed.
 Theorem T04e_threads_resolution : forall cpu p, (0 < cpu)%Z -> (0 <= p)%Z ->
   number_of_threads cpu 0 = cpu /\ (p <> 0%Z -> number_of_threads cpu p = p) /\
   (0 < number_of_threads cpu p)%Z.
-Proof.
-  intros cpu p Hc Hp. split; [exact (number_of_threads_zero cpu)|].
-  split; [exact (number_of_threads_nonzero cpu p) | exact (number_of_threads_pos cpu p Hc Hp)].
-Qed.
+Proof. exact threads_resolution. Qed.
 Print Assumptions T04e_threads_resolution.
 
 Theorem T04e_scaled_def : forall N f,
